@@ -2,7 +2,10 @@ package checks
 
 import (
 	"bytes"
+	"context"
 	"fmt"
+	"github.com/aws/aws-sdk-go-v2/service/s3"
+	"io"
 	"math/big"
 	"regexp"
 	"strconv"
@@ -221,7 +224,7 @@ func checkRangeResp(obj []byte, resp *gw.Resp, want []rangeOutcome, isHead bool)
 // C13: exhaustive product object size × Range string, end-to-end GET and HEAD,
 // plus direct ParseGetObjectRange on the same strings with larger sizes.
 func C13(r *ck.Run) {
-	r.Rule("every Range string of the grammar menu (closed/open/suffix over boundary numbers, multi-range, other units, lax numerals, garbage) × every object size (and a directory object); a case is distinct by (size, key, header, method); non-trivial = header present")
+	r.Rule("every Range string of the grammar menu (closed/open/suffix over boundary numbers, multi-range, other units, lax numerals, garbage) × every object size (and a directory object); plus every ordered pair of ranged reads at the backend seam opened first and drained afterwards in both orders; a case is distinct by (size, key, header, method); non-trivial = header present")
 	r.Assume("suffix ranges may be supported (206 last n bytes) or unsupported (200 whole object); numbers that do not fit 63 bits may count as beyond-the-end (416) or malformed (200); blanks and '+' in numerals may be rejected (200) or ignored")
 	sizes := []int64{0, 1, 2, 5, 10}
 	if r.Thorough() {
@@ -284,6 +287,9 @@ func C13(r *ck.Run) {
 				r.Sample(map[string]any{"size": size, "range": "bytes=1-3", "admitted": "206[1-3]"})
 			}
 		}
+		if ci == 0 {
+			c13Overlapping(r, f)
+		}
 		f.Close()
 	}
 	// direct calls of the parser with the same grammar and larger sizes
@@ -324,4 +330,60 @@ func C13(r *ck.Run) {
 		}
 	}
 	_ = strconv.Itoa
+}
+
+// c13Overlapping: a response body is read by the server after the backend call has returned, while other requests are
+// being served. Every ordered pair of ranged reads (two objects x ranges) is opened first and drained afterwards, in
+// both orders: each body must be its own range.
+func c13Overlapping(r *ck.Run, f *Fx) {
+	objs := map[string][]byte{"ov/a": Pattern(300, 1), "ov/b": Pattern(70000, 7)}
+	for k, v := range objs {
+		Must(f.Put(gw.Root, "rbk", k, v), "put "+k)
+	}
+	type rd struct {
+		Key, Range string
+		From, To   int
+	}
+	reads := []rd{{"ov/a", "bytes=0-9", 0, 9}, {"ov/a", "bytes=100-131", 100, 131}, {"ov/a", "", 0, 299}, {"ov/b", "bytes=5-20", 5, 20}, {"ov/b", "bytes=100-65700", 100, 65700}, {"ov/b", "bytes=69990-", 69990, 69999}}
+	for i, a := range reads {
+		for j, b := range reads {
+			for _, drainFirst := range []int{0, 1} {
+				open := func(x rd) (io.ReadCloser, error) {
+					out, err := f.G.BE.GetObject(context.Background(), &s3.GetObjectInput{Bucket: sp("rbk"), Key: sp(x.Key), Range: sp(x.Range)})
+					if err != nil {
+						return nil, err
+					}
+					return out.Body, nil
+				}
+				ba, err1 := open(a)
+				bb, err2 := open(b)
+				r.Add("evaluations", 1)
+				r.Distinct(fmt.Sprintf("overlap|%d|%d|%d", i, j, drainFirst))
+				if err1 != nil || err2 != nil {
+					r.Violation(ck.JoinSig("overlapping-reads", "valid-ranged-read-failed"), map[string]any{"first": a, "second": b, "errors": fmt.Sprint(err1, err2)})
+					continue
+				}
+				bodies := [2][]byte{}
+				order := []int{0, 1}
+				if drainFirst == 1 {
+					order = []int{1, 0}
+				}
+				for _, o := range order {
+					if o == 0 {
+						bodies[0], _ = io.ReadAll(ba)
+					} else {
+						bodies[1], _ = io.ReadAll(bb)
+					}
+				}
+				ba.Close()
+				bb.Close()
+				okA := bytes.Equal(bodies[0], objs[a.Key][a.From:a.To+1])
+				okB := bytes.Equal(bodies[1], objs[b.Key][b.From:b.To+1])
+				r.Outcome(fmt.Sprintf("overlap:%v", okA && okB))
+				if !okA || !okB {
+					r.Violation(ck.JoinSig("overlapping-reads", "body-is-not-the-requested-range"), map[string]any{"first": a, "second": b, "drained_first": order[0], "first_ok": okA, "second_ok": okB})
+				}
+			}
+		}
+	}
 }
